@@ -59,3 +59,13 @@ Definition obs_stepd (s : stepd_st) : obs :=
   (sdrift s, swarning s, sn s, [zf (scorrect s); zf (aq_num_true (swin s)); zf (aq_size (swin s))]).
 Definition obs_bocd (s : bocd_st FloatA) : obs :=
   (bdrift s, false, bn s, [onan (bpmean s); onan (bpvar s)] ++ brow s).
+
+(** exhaustive families: the [len] low bits of [i], most significant first *)
+Fixpoint bits_of (i : Z) (len : nat) (acc : list Z) : list Z :=
+  match len with O => acc | S k => bits_of (i / 2) k ((i mod 2)%Z :: acc) end.
+Fixpoint zrange (n : nat) (from : Z) : list Z :=
+  match n with O => [] | S k => from :: zrange k (from + 1) end.
+(** flags of all 2^len 0/1 streams of length [len]: per stream, per step, 2*drift + warning *)
+Definition flag_code (o : obs) : Z := let '(d, w, _, _) := o in (if d then 2 else 0) + (if w then 1 else 0).
+Definition all01_flags (D : Detector) (inj : Z -> d_in D) (o : d_st D -> obs) (c : d_cfg D) (len : nat) : list (list Z) :=
+  map (fun i => map flag_code (run_obs D o c (map (fun b => Upd (inj b)) (bits_of i len [])))) (zrange (Nat.pow 2 len) 0).
